@@ -1138,6 +1138,11 @@ class CryptographyEngine(api.CryptographicEngine):
             b'\x90\x01P\x98<\xd2O\xb0\xd6\x96?}(\xe1\x7fr'
         """
         if derivation_method == enums.DerivationMethod.ENCRYPT:
+            if derivation_data is None:
+                raise exceptions.InvalidField(
+                    "Derivation data is required for encryption-based key "
+                    "derivation."
+                )
             result = self.encrypt(
                 encryption_algorithm=encryption_algorithm,
                 encryption_key=key_material,
